@@ -73,7 +73,7 @@ def _fam_case(draw):
 
 class StubFamily(SubCheck):
     name = "stub_family"
-    budget = {"quick": 320, "thorough": 8000}
+    budget = {"quick": 96, "thorough": 3000}
     weight = 3.0
 
     def strategy(self, tier):
@@ -165,19 +165,23 @@ class StubFamily(SubCheck):
                     info["efluct_ratio_min"] = min(info.get("efluct_ratio_min", 99.0), r1, r2)
                     if not (3.0 <= r2 <= 5.2):
                         return Outcome.fail("energy_fluctuation_not_second_order", f"molecule {b}: energy fluctuation ratios per halving {r1:.2f}, {r2:.2f} (second order gives 4)", labels, True, ratio=r2)
-            # no secular drift: one long run (>= 60 periods of the fastest mode); window means over >= 6 periods each
-            if y <= 0.3 and not rc:
-                period = 2 * math.pi / (y / case["dt"])
-                nlong = int(min(4000, max(600, round(60 * period / case["dt"]))))
-                _, rl, _ = _md(S0, X0, case["dt"], case["T"], case["k"], wd, "long", nlong, case["seed"], None)
+            # no secular drift: one long run covering >= 15 periods of the SLOWEST vibration (heavy-heavy pair springs:
+            # omega_slow^2 ~ 2 k ACC / 16), window means over >= 3 slow periods each. (A first version timed the run by the
+            # fastest mode: 100 fs covered less than one slow period and the window means differed by the oscillation itself.)
+            w_slow = math.sqrt(2.0 * case["k"] * ACC_CODATA / 16.0)
+            t_long = 15.0 * 2 * math.pi / w_slow
+            if y <= 0.3 and not rc and t_long / case["dt"] <= 6000:
+                nlong = int(round(t_long / case["dt"]))
+                labels.append("drift_checked")
+                _, rl, _ = _md(S0, X0, case["dt"], case["T"], case["k"], wd, "long", nlong, case["seed"], None, every=max(1, nlong // 600))
                 for b in (0, 1):
                     E = rl[b]["data/thermo/Ep"] + rl[b]["data/thermo/Ek"]
-                    w = max(10, len(E) // 10)
+                    w = max(10, len(E) // 5)
                     amp = float(np.abs(E - E.mean()).max())
                     drift = abs(float(E[-w:].mean() - E[:w].mean()))
                     info["drift_over_amp"] = max(info.get("drift_over_amp", 0.0), drift / max(amp, 1e-300))
                     if drift > 0.3 * amp + 1e-12:
-                        return Outcome.fail("energy_drift", f"molecule {b}: over {nlong} steps the mean total energy moves by {drift:.3e} eV, fluctuation amplitude {amp:.3e} eV", labels, True)
+                        return Outcome.fail("energy_drift", f"molecule {b}: over {nlong} steps ({t_long:.0f} fs) the mean total energy moves by {drift:.3e} eV, fluctuation amplitude {amp:.3e} eV", labels, True)
             # reversal
             n = int(round(case["time"] / case["dt"]))
             mol, res, _ = _md(S0, X0, case["dt"], case["T"], case["k"], wd, "fwd", n, case["seed"], None)
